@@ -103,6 +103,8 @@ def _cfg_for(name):
             for b in [1, 2, 3]:
                 if getattr(a, "slow", False) and (n > 3 or tier == "quick" and b > 2):
                     continue
+                if name.startswith("QueryByCommittee[v") and (b == 1 or n > 3):
+                    continue    # vote-based committees fork on every member's prediction in every cycle: 3-cycle loops explode
                 out.append(dict(strat=name, n=n, b=b))
         return out
     return cfg
